@@ -1,5 +1,6 @@
 import Grexv.Model.Api
 import Grexv.Lemmas.StrOrder
+import Grexv.Lemmas.SortCases
 
 /-!
 # C10 — build() is a deterministic function of the test-case *set* and the accumulated settings
@@ -10,36 +11,6 @@ namespace Grexv.Props.C10
 open Grexv Gen
 
 /-! ## S1: sort/dedup yields one canonical list per set of test cases -/
-
-theorem dedupAdj_nodup_of_sorted (l : List Str) (h : l.Pairwise (fun a b => strLe a b = true)) :
-    (dedupAdj l).Nodup := by
-  induction l using dedupAdj.induct with
-  | case1 => simp [dedupAdj]
-  | case2 x => simp [dedupAdj]
-  | case3 x rest ih =>
-    simp only [dedupAdj, ite_true]
-    exact ih (List.pairwise_cons.mp h).2
-  | case4 x y rest hne ih =>
-    simp only [dedupAdj, hne, ite_false]
-    have h' := List.pairwise_cons.mp h
-    refine List.nodup_cons.mpr ⟨?_, ih h'.2⟩
-    intro hx
-    have hx' : x ∈ y :: rest := (mem_dedupAdj x _).mp hx
-    have hxy : strLe x y = true := h'.1 y (List.mem_cons_self)
-    have hyx : strLe y x = true := by
-      simp only [List.mem_cons] at hx'
-      rcases hx' with rfl | hx'
-      · exact hxy
-      · exact (List.pairwise_cons.mp h'.2).1 x hx'
-    exact hne (strLe_antisymm x y hxy hyx)
-
-theorem sortCases_mem (ws : List Str) (w : Str) : w ∈ sortCases ws ↔ w ∈ ws := by
-  simp [sortCases, mem_sortBy, mem_dedupAdj]
-
-theorem sortCases_nodup (ws : List Str) : (sortCases ws).Nodup := by
-  unfold sortCases
-  exact (sortBy_perm _ _).nodup_iff.mpr
-    (dedupAdj_nodup_of_sorted _ (sortBy_sorted strLe strLe_total strLe_trans ws))
 
 /-- **C10 (order, duplicates)** two lists with the same set of test cases are stored as the same list -/
 theorem sortCases_set (l1 l2 : List Str) (h : ∀ w, w ∈ l1 ↔ w ∈ l2) : sortCases l1 = sortCases l2 := by
